@@ -16,7 +16,8 @@
    The length facts are PROVED for the Gallina instances (aes_enc_length, aes_dec_length, sha1_length), see the
    ..._aes / ..._sha1 corollaries; "aes_dec inverts aes_enc" is not proved: it is an assumption about AES,
    validated by FIPS-197 known answers (Prim/Aes256.v) and by the correspondence runs. *)
-From Coq Require Import ZArith NArith List Lia.
+From Coq Require Import String.
+From Coq Require Import ZArith NArith List Lia Bool.
 From MTV Require Import Base.Bytes Base.Outcome Prim.Hex Prim.Xor Prim.Sha1 Prim.Aes256.
 From MTV Require Import Crypto.Ige Crypto.IgeMem Crypto.IgeProofs Crypto.TempKeys Crypto.TempKeysProofs.
 Import ListNotations.
@@ -45,9 +46,9 @@ Theorem C05_enc_is_ige_aes : forall key iv data out n,
   do_encrypt aes_enc data out key iv = (Done, ige_encrypt aes_enc key iv data ++ skipn (length data) out, data) /\
   do_decrypt aes_dec data out key iv = (Done, ige_decrypt aes_dec key iv data ++ skipn (length data) out, data).
 Proof.
-  intros key iv data out n Hk. split.
-  - apply (do_encrypt_is_ige aes_enc aes_enc_length); auto using key_len_ok_32.
-  - apply (do_decrypt_is_ige aes_dec aes_dec_length); auto using key_len_ok_32.
+  intros key iv data out n Hk Hiv Hd Hn Ho. split.
+  - apply (do_encrypt_is_ige aes_enc aes_enc_length key iv data out n); auto using key_len_ok_32.
+  - apply (do_decrypt_is_ige aes_dec aes_dec_length key iv data out n); auto using key_len_ok_32.
 Qed.
 Print Assumptions C05_enc_is_ige_aes.
 
@@ -193,7 +194,7 @@ Proof. vm_compute. reflexivity. Qed.
 Theorem C05_temp_roundtrip : forall (H : bytes -> bytes) (E D : bytes -> bytes -> bytes),
   (forall m, length (H m) = 20) ->
   (forall k b, length (E k b) = 16) -> (forall k b, length (D k b) = 16) ->
-  (forall k b, length b = 16 -> D k (E k b) = b) ->
+  (forall k b, length k = 32 -> length b = 16 -> D k (E k b) = b) ->
   forall new_nonce server_nonce payload,
   length new_nonce = 32 -> bytes_ok new_nonce = true ->
   length server_nonce = 16 -> bytes_ok server_nonce = true ->
@@ -220,7 +221,7 @@ Print Assumptions C05_temp_roundtrip.
 
 (* with the Gallina SHA-1 and AES the only hypotheses left are the two cryptographic ones *)
 Theorem C05_temp_roundtrip_inst :
-  (forall k b, length b = 16 -> aes_dec k (aes_enc k b) = b) ->
+  (forall k b, length k = 32 -> length b = 16 -> aes_dec k (aes_enc k b) = b) ->
   forall new_nonce server_nonce payload pad,
   length new_nonce = 32 -> bytes_ok new_nonce = true ->
   length server_nonce = 16 -> bytes_ok server_nonce = true ->
@@ -241,17 +242,18 @@ Example C05_roundtrip_len12 :
   let nn := 0%N :: hex "1c85db234aa2640afc4a76a735cf5b1f0fd68bd17fa181e1229ad867cc024d" in
   let sn := hex "a5cf4d33f4a11ea877ba4aa573907330" in
   let payload := hex "000102030405060708090a0b" in
-  forall ct, encrypt_temp sha1 aes_enc (fun n => repeat 7%N n) payload (of_be nn) (of_be sn) = Ok ct ->
-  length ct = 32 /\ decrypt_temp sha1 aes_dec ct (of_be nn) (of_be sn) = Ok payload.
-Proof.
-  cbv zeta. intros ct. vm_compute. intros Hc. injection Hc as <-. split; reflexivity.
-Qed.
+  match encrypt_temp sha1 aes_enc (fun n => repeat 7%N n) payload (of_be nn) (of_be sn) with
+  | Ok ct => Nat.eqb (length ct) 32 &&
+             match decrypt_temp sha1 aes_dec ct (of_be nn) (of_be sn) with Ok p => beq p payload | _ => false end
+  | _ => false
+  end = true.
+Proof. vm_compute. reflexivity. Qed.
 
 Example C05_roundtrip_pad15 :
   let nn := hex "311c85db234aa2640afc4a76a735cf5b1f0fd68bd17fa181e1229ad867cc024d" in
   let sn := 0%N :: 0%N :: hex "4d33f4a11ea877ba4aa573907330" in
-  let payload := hex "0001020304050607080910111213" in
-  let pad := hex "0102030405060708090a0b0c0d" in
+  let payload := hex "00010203040506070809101112" in
+  let pad := hex "0102030405060708090a0b0c0d0e0f" in
   (forall i, 0 < i <= length pad -> sha1 (payload ++ firstn i pad) <> sha1 payload) /\
   decrypt_temp sha1 aes_dec
     (ige_encrypt aes_enc (tmp_aes_key sha1 nn sn) (tmp_aes_iv sha1 nn sn) (sha1 payload ++ payload ++ pad))
@@ -259,11 +261,11 @@ Example C05_roundtrip_pad15 :
 Proof.
   cbv zeta. split.
   - intros i Hi. cbn [length hex] in Hi.
-    assert (Hc : forallb (fun i => negb (beq (sha1 (hex "0001020304050607080910111213" ++ firstn i (hex "0102030405060708090a0b0c0d")))
-                                             (sha1 (hex "0001020304050607080910111213")))) (seq 1 13) = true)
+    assert (Hc : forallb (fun i => negb (beq (sha1 (hex "00010203040506070809101112" ++ firstn i (hex "0102030405060708090a0b0c0d0e0f")))
+                                             (sha1 (hex "00010203040506070809101112")))) (seq 1 15) = true)
       by (vm_compute; reflexivity).
     rewrite forallb_forall in Hc. specialize (Hc i). rewrite in_seq in Hc.
-    assert (Hl : length (hex "0102030405060708090a0b0c0d") = 13) by reflexivity. rewrite Hl in Hi.
+    assert (Hl : length (hex "0102030405060708090a0b0c0d0e0f") = 15) by reflexivity. rewrite Hl in Hi.
     specialize (Hc ltac:(lia)). apply Bool.negb_true_iff in Hc. now apply beq_neq.
   - vm_compute. reflexivity.
 Qed.
